@@ -186,7 +186,10 @@ namespace
             return {};
         }
         auto position = right.data<d_array>();
-        position->check_type(runtime, t_scalar(), 3);
+        if (!position->check_type(runtime, t_scalar(), 3))
+        {
+            return {};
+        }
         auto inner = veh->value();
         inner->position({
             position->at(0).data<d_scalar, float>(),
@@ -219,7 +222,10 @@ namespace
             return {};
         }
         auto velocity = right.data<d_array>();
-        velocity->check_type(runtime, t_scalar(), 3);
+        if (!velocity->check_type(runtime, t_scalar(), 3))
+        {
+            return {};
+        }
         auto inner = veh->value();
         inner->velocity({
             velocity->at(0).data<d_scalar, float>(),
